@@ -133,6 +133,7 @@ rx("m19a", "C19", "slices.go", r"\t\t\tdef := p\.DeepCopyValue\(reflect\.ValueOf
 rx("m19b", "C19", "zogSchema.go", r"\t\t\t\*destPtr = \*defaultVal\n", "\t\t\tdestPtr = defaultVal\n", "no-schema-or-input-writes")
 rx("m19c", "C19", "boolean.go", r"(func \(v \*BoolSchema\[T\]\) validate\(ctx \*p\.SchemaCtx\) \{\n)", "${1}\t*(ctx.ValPtr.(*T)) = T(false)\n", "validate-write-sites")
 rx("m19d", "C19", "slices.go", r"def := p\.DeepCopyValue\(reflect\.ValueOf\(v\.defaultVal\)\)", "def := reflect.ValueOf(v.defaultVal)", "default-not-aliased", "F27 reverted: the default copied one level deep")
+rx("m19e", "C19", "slices.go", r"refVal = p\.DeepCopyValue\(reflect\.ValueOf\(v\.defaultVal\)\)", "refVal = reflect.ValueOf(v.defaultVal)", "default-not-aliased", "F28 reverted: the default's own items handed to the item schemas")
 # ---- C20
 rx("m20a", "C20", "internals/tests.go", r"return len\(\*x\) >= n", "return len(*x) > n", "predicate")
 rx("m20b", "C20", "time.go", r"return val\.Equal\(t\)", "return *val == t", "predicate")
